@@ -17,7 +17,7 @@ import time
 import collections
 
 VERIF = os.path.abspath(os.path.join(os.path.dirname(__file__), '..', '..'))
-LEAN = os.path.join(VERIF, 'lean', 'QecVerif')
+LEAN = os.environ.get('QV_LEAN_DIR') or os.path.join(VERIF, 'lean', 'QecVerif')
 DRIVER = os.path.join(LEAN, '.lake', 'build', 'bin', 'qvdriver')
 REPO = os.environ.get('QECSIM_REPO', '/repo')
 ALLOWED_AXIOMS = {'propext', 'Classical.choice', 'Quot.sound'}
